@@ -476,6 +476,22 @@ def keysOkPairs : List (PData × PData) → Bool
   | (k, v) :: r => keysOk k && keysOk v && keysOkPairs r
 end
 
+mutual
+/-- sizes a CBOR head can express: constructor ids and map sizes below 2^64 (always true of real data) -/
+def sized : PData → Bool
+  | .constr c fs => decide (c < 2^64) && sizedList fs
+  | .list xs => sizedList xs
+  | .map kvs => decide (kvs.length < 2^64) && sizedPairs kvs
+  | .int _ => true
+  | .bytes _ => true
+def sizedList : List PData → Bool
+  | [] => true
+  | x :: xs => sized x && sizedList xs
+def sizedPairs : List (PData × PData) → Bool
+  | [] => true
+  | (k, v) :: r => sized k && sized v && sizedPairs r
+end
+
 /-- `RawPlutusData.from_primitive` accepts the decoded top-level object: not the empty list, and under the C extension
 no list at all -/
 def topOk (cext : Bool) : PData → Bool
